@@ -328,6 +328,57 @@ def check(ctx):
         raise AnalysisError('C16.R5 saw only %d raise statements on decode paths' % n5)
 
 
+    # ---- R6: skipping is reading.  The BER decoders jump over a TLV they do not decode (an unknown CHOICE alternative, trailing extension additions) with
+    #      skip_tag_length_contents: on a truncated encoding the jump must fail like a read would -- the helper is evaluated (sa/evalexpr.py) on complete TLVs and on every
+    #      proper prefix of them: a complete TLV gives its end, a prefix raises the library's decode error and never yields an offset.
+    ctx.rule('C16.R6', 'BER: skipping a TLV fails on truncated data like reading it (skip_tag_length_contents evaluated on every proper prefix of complete TLVs)')
+    from .. import evalexpr as _ev6
+    sk = model.mod(BER).functions.get('skip_tag_length_contents')
+    if sk is None:
+        ctx.instance('C16.R6', 'ber.skip_tag_length_contents', 'undecided', 'helper not found', nontrivial=False, file=BER)
+    else:
+        sp6 = flow.param_names(sk)
+        n_ok = n_und = 0
+        bad6 = None
+        und6 = ''
+        for tag in (b'\x30', b'\xa1', b'\x04', b'\x9f\x1f', b'\xbf\x81\x02'):
+            for n in (0, 1, 5, 127, 128, 300):
+                k = max(1, (n.bit_length() + 7) // 8)
+                lf = bytes([n]) if n < 128 else bytes([0x80 | k]) + n.to_bytes(k, 'big')
+                full = tag + lf + bytes(n)
+                cuts = sorted({0, 1, len(tag), len(tag) + 1, len(tag) + len(lf), len(full) - 1} - {len(full)})
+                for cut in cuts + [len(full)]:
+                    if cut < 0:
+                        continue
+                    data = full[:cut]
+                    try:
+                        got, _e = _ev6.run_function(sk, {sp6[0]: bytearray(data), sp6[1]: 0})
+                    except _ev6.Raised as e_:
+                        lib = set(e_.mro or [e_.name]) & {'DecodeError', 'OutOfByteDataError', 'MissingDataError', 'Error'}
+                        if cut == len(full):
+                            bad6 = bad6 or (data, 'raises %s for the complete TLV' % e_.name)
+                        elif not lib:
+                            bad6 = bad6 or (data, 'raises %s, not the library\'s decode error,' % e_.name)
+                        else:
+                            n_ok += 1
+                        continue
+                    except (_ev6.Unsupported, TypeError, KeyError) as e_:
+                        n_und += 1
+                        und6 = und6 or str(e_)[:80]
+                        continue
+                    if cut == len(full) and got == len(full):
+                        n_ok += 1
+                    elif cut < len(full):
+                        bad6 = bad6 or (data, 'returns the offset %r' % (got,))
+                    else:
+                        bad6 = bad6 or (data, 'returns %r, the TLV ends at %d' % (got, len(full)))
+        ctx.instance('C16.R6', 'ber.skip_tag_length_contents on %d TLVs and prefixes (%d undecided)' % (n_ok + (1 if bad6 else 0), n_und), 'VIOLATION' if bad6 else ('ok' if n_ok > n_und else 'undecided'),
+                     und6, nontrivial=n_ok > 0, node=sk, file=BER)
+        if bad6:
+            ctx.violation('C16.R6', BER, sk, Model.qual(sk),
+                          'skip_tag_length_contents(%s, 0) %s for a %d-octet prefix of a longer TLV: a decoder that skips with it (an unknown CHOICE alternative) accepts the truncated '
+                          'encoding and returns a value instead of a decode error' % (bad6[0].hex() or "b\'\'", bad6[1], len(bad6[0])), stmt='skip over missing contents')
+
 MUTANTS = [
     dict(name='per read_bits guard dropped', file=PER, quick=True,
          old='''        """Read given number of bits.
